@@ -976,6 +976,7 @@ func (fc *FnCtx) doConvert(x *ssa.Convert) {
 func (fc *FnCtx) bstrDecl() {
 	fc.eng.GDecl("bstr", "(declare-fun bstr ((Array Int Int) Int Int) String)")
 	fc.eng.GAxiom("bstr_len", "(assert (forall ((m (Array Int Int)) (o Int) (n Int)) (! (=> (>= n 0) (= (str.len (bstr m o n)) n)) :pattern ((bstr m o n)))))", "bstr")
+	fc.eng.GAxiom("bstr_one", "(assert (forall ((m (Array Int Int)) (o Int)) (! (=> (and (<= 0 (select m o)) (<= (select m o) 255)) (= (bstr m o 1) (str.from_code (select m o)))) :pattern ((bstr m o 1)))))", "bstr")
 	fc.eng.GAxiom("bstr_empty", "(assert (forall ((m (Array Int Int)) (o Int)) (! (= (bstr m o 0) \"\") :pattern ((bstr m o 0)))))", "bstr")
 }
 
